@@ -7,8 +7,10 @@ import (
 	"crypto/sha256"
 	"fmt"
 	"hash"
+	"runtime"
 	"strings"
 	"sync"
+	"sync/atomic"
 
 	"github.com/pion/stun/v3"
 )
@@ -238,6 +240,43 @@ func runC18(o *out, thorough bool, r *rng, _ []string) map[string]interface{} {
 			o.fail("hmac-concurrent-mismatch", fmt.Sprintf("%d concurrent MESSAGE-INTEGRITY computations differ from crypto/hmac", bad))
 		}
 		o.countN("concurrent-message-integrity", 16*150)
+	}
+	// oversubscribed tight loop: 4 goroutines per P, each verifying ITS message with ITS key over and over; an
+	// object handed back to the pool while still in use is re-keyed by another goroutine sooner or later
+	{
+		workers := 4 * runtime.GOMAXPROCS(0)
+		iters := 12000
+		if thorough {
+			iters = 150000
+		}
+		var wg sync.WaitGroup
+		var bad atomic.Int64
+		for w := 0; w < workers; w++ {
+			wg.Add(1)
+			go func(w int) {
+				defer wg.Done()
+				key := []byte(fmt.Sprintf("password-of-worker-%03d", w))
+				m := stun.New()
+				_ = m.Build(stun.BindingRequest, stun.TransactionID, stun.NewSoftware(strings.Repeat("x", 4*(w%32))), stun.MessageIntegrity(key))
+				d := new(stun.Message)
+				if stun.Decode(m.Raw, d) != nil {
+					bad.Add(1)
+					return
+				}
+				mi := stun.MessageIntegrity(key)
+				for i := 0; i < iters && bad.Load() == 0; i++ {
+					if mi.Check(d) != nil {
+						bad.Add(1)
+						return
+					}
+				}
+			}(w)
+		}
+		wg.Wait()
+		if bad.Load() > 0 {
+			o.fail("hmac-concurrent-mismatch", fmt.Sprintf("x %d workers: a correct MESSAGE-INTEGRITY was rejected while other goroutines were computing theirs", workers))
+		}
+		o.countN("oversubscribed-integrity-checks", workers*iters)
 	}
 	// concurrent use of the pool: 16 goroutines, thousands of histories compared with crypto/hmac
 	// (run under the race detector in the thorough tier)
